@@ -1351,7 +1351,8 @@ Qed.
 
 (** ** Expressions of the modelled surface language, SOURCE [-transformed-by T], satisfy the guard
     as soon as their texts and external programs do. *)
-Definition atom_ok (a : tatom) : Prop := match a with TRun g => g_ok g | TReplace sub => sub_ok sub | _ => True end.
+Definition atom_ok (a : tatom) : Prop :=
+  match a with TRun g => g_ok g | TReplace sub => sub_ok sub | TStrip v => lf_ok (lf_strip_of v) | _ => True end.
 Definition trans_ok (t : trans) : Prop :=
   match t with TAtom a => atom_ok a | TSeq l => Forall atom_ok l | TChain c => Forall atom_ok (chain_atoms c) end.
 Definition otrans_ok (t : option trans) : Prop := match t with Some t => trans_ok t | None => True end.
@@ -1365,6 +1366,7 @@ Proof.
   - split; [auto|]. split; [|reflexivity]. split; [apply lf_ok_filter | exact K].
   - split; [auto|]. split; [|reflexivity]. split; [exact A | exact K].
   - split; [auto|]. split; [|reflexivity]. split; [now apply lf_ok_replace | exact K].
+  - split; [auto|]. split; [|reflexivity]. split; [exact A | exact K].
 Qed.
 
 Lemma fold_atoms_guard : forall l x, Forall atom_ok l -> fresh x -> lfs_ok x ->
